@@ -53,6 +53,72 @@ Definition sl_whole_sim (fuel_bp fuel_walk : nat) (net : list (Link (F:=F))) (tp
   sl_full_walk fuel_walk (env_of_path p rp) pts (path_offset_end p) fmax
     ({| sl_st := st; sl_cache := cache; sl_fb := fb; sl_idx := idx |}, con).
 
+(* ---------------------------------------------------------------- SpeedLimitTrainSim::walk_timed_path
+   The simulation of a DISPATCHED train: the timed link path (link, time the train may enter it) is fed to the
+   simulation piecewise - the path is extended by the links whose time has come (extend_path: PathTpc::extend +
+   BrakingPoints::recalc), the train steps until the clock reaches the time of the last link supplied, and so on;
+   the last entry of the timed path is never supplied (it only carries the end time); finally walk().
+   [tl] = timed path as (link index, time).  Fuel: Err 1399 when a loop bound is exhausted. *)
+Record TimedSim := { tw_path : Path (F:=F); tw_pts : list (BP (F:=F)); tw_x : SLState (F:=F) * Consist (F:=F) }.
+
+(* while idx_next + 1 < n - 1 && timed_path[idx_next].time < state.time { idx_next += 1 } *)
+Fixpoint tw_advance (fuel : nat) (times : list F) (n idx_next : nat) (t : F) : nat :=
+  match fuel with
+  | O => idx_next
+  | S f => if Nat.ltb (S idx_next) (n - 1) && (nth idx_next times n0 <? t)
+           then tw_advance f times n (S idx_next) t else idx_next
+  end.
+
+(* while self.state.time < time_extend { self.step()? } *)
+Fixpoint tw_steps (fuel : nat) (e : Env (F:=F)) (pts : list (BP (F:=F))) (fmax time_extend : F)
+    (x : SLState (F:=F) * Consist (F:=F)) : res (SLState (F:=F) * Consist (F:=F)) :=
+  if k_time (ts_k (sl_st (fst x))) <? time_extend then
+    match fuel with
+    | O => Err 1399
+    | S f => let? x' := sl_full_step e pts fmax x in tw_steps f e pts fmax time_extend x'
+    end
+  else Ok x.
+
+(* extend_path(network, links): the path grows, the braking points are rebuilt from the CURRENT state and the
+   braking index restarts at the last point; the train state and its caches are untouched *)
+Definition tw_extend (fuel_bp : nat) (net : list (Link (F:=F))) (rp : ResParams (F:=F)) (links : list Z)
+    (w : TimedSim) : res TimedSim :=
+  let? p := extend net (tw_path w) links in
+  let s := fst (tw_x w) in
+  let? (pts, idx) := recalc fuel_bp (brkenv_of_path p rp (fb_force_max (sl_fb s))) (path_offset_end p) (sl_st s) (sl_cache s) in
+  Ok {| tw_path := p; tw_pts := pts;
+        tw_x := ({| sl_st := sl_st s; sl_cache := sl_cache s; sl_fb := sl_fb s; sl_idx := idx |}, snd (tw_x w)) |}.
+
+Fixpoint tw_outer (fuel fuel_bp fuel_steps : nat) (net : list (Link (F:=F))) (rp : ResParams (F:=F)) (fmax : F)
+    (tl : list (Z * F)) (idx_prev : nat) (w : TimedSim) : res TimedSim :=
+  let n := length tl in
+  if Nat.eqb idx_prev (n - 1) then Ok w
+  else match fuel with
+  | O => Err 1399
+  | S f =>
+      let times := map snd tl in
+      let idx_next := tw_advance n times n (S idx_prev) (k_time (ts_k (sl_st (fst (tw_x w))))) in
+      let time_extend := nth (idx_next - 1) times n0 in
+      let links := map fst (firstn (idx_next - idx_prev) (skipn idx_prev tl)) in
+      let? w1 := tw_extend fuel_bp net rp links w in
+      let? x' := tw_steps fuel_steps (env_of_path (tw_path w1) rp) (tw_pts w1) fmax time_extend (tw_x w1) in
+      tw_outer f fuel_bp fuel_steps net rp fmax tl idx_next
+        {| tw_path := tw_path w1; tw_pts := tw_pts w1; tw_x := x' |}
+  end.
+
+(* Err 1601 = "Timed path cannot be empty!" *)
+Definition sl_timed_walk (fuel_bp fuel_steps : nat) (net : list (Link (F:=F))) (tp : TrainParams (F:=F))
+    (tl : list (Z * F)) (rp : ResParams (F:=F)) (fmax : F) (fb : FricBrake (F:=F)) (st : TState (F:=F))
+    (cache : ResCache) (con : Consist (F:=F)) : res (SLState (F:=F) * Consist (F:=F)) :=
+  match tl with
+  | [] => Err 1601
+  | _ =>
+    let w0 := {| tw_path := new_path tp; tw_pts := [];
+                 tw_x := ({| sl_st := st; sl_cache := cache; sl_fb := fb; sl_idx := 0 |}, con) |} in
+    let? w := tw_outer (length tl) fuel_bp fuel_steps net rp fmax tl 0 w0 in
+    sl_full_walk fuel_steps (env_of_path (tw_path w) rp) (tw_pts w) (path_offset_end (tw_path w)) fmax (tw_x w)
+  end.
+
 (* TrainSimBuilder::make_set_speed_train_sim(network, route, trace) followed by walk() *)
 Definition ss_whole_sim (fuel : nat) (net : list (Link (F:=F))) (tp : TrainParams (F:=F)) (route : list Z)
     (rp : ResParams (F:=F)) (fmax : F) (times speeds : list F) (st : TState (F:=F)) (cache : ResCache)
